@@ -73,6 +73,8 @@ def gen_case(rng, i, smooth=False):
     r = rng.random()
     if r < 0.15:
         req = None
+    elif r < 0.19:
+        req = []  # nothing requested: a legal call that must change nothing
     elif r < 0.5:
         req = list(rg)
     else:
@@ -173,6 +175,15 @@ def _one_run(case, order, cont, ctx, use_proxy, label):
     if bad:
         ctx.violation("unrequested_leaf_touched", _slim(case), {"run": label, "leaves": [others[k] for k in bad]})
         return None
+    if not requested:
+        # nothing requested (inputs=[] or no reachable leaf): a legal call; no .grad may have been touched (checked above for
+        # every leaf), no value changed, and the aggregator has nothing to aggregate
+        for t, v in zip(b.all_tensors(), values_before):
+            if not aj.bits_equal(t.detach(), v):
+                ctx.violation("tensor_value_changed", _slim(case), {"run": label})
+                return None
+        ctx.count("w_nothing_requested")
+        return {}, requested, ref_blocks, J_ref
     for j in requested:
         g = b.leaves[j].grad
         if g is None or g.shape != b.leaves[j].shape or g.dtype != dtype:
